@@ -14,6 +14,8 @@ pub struct Stats {
     pub evaluations: u64,
     /// digests of distinct cases satisfying the property's non-triviality rule
     pub nontrivial: HashSet<u64>,
+    /// non-trivial cases that are distinct by construction (enumeration indices), counted instead of hashed
+    pub nontrivial_counted: u64,
     /// generator-distribution histogram
     pub classes: BTreeMap<&'static str, u64>,
     pub samples: Vec<Value>,
@@ -74,6 +76,18 @@ impl Stats {
         }
     }
 
+    /// `n` non-trivial cases that are distinct by construction (distinct enumeration indices).
+    #[inline]
+    pub fn count_nontrivial(&mut self, n: u64) {
+        if self.recording {
+            self.nontrivial_counted += n;
+        }
+    }
+
+    pub fn distinct_nontrivial(&self) -> u64 {
+        self.nontrivial.len() as u64 + self.nontrivial_counted
+    }
+
     /// Non-trivial sub-case `sub` of the current case.
     #[inline]
     pub fn nontrivial_sub(&mut self, sub: u64) -> bool {
@@ -126,6 +140,7 @@ impl Stats {
     pub fn merge(&mut self, other: Stats) {
         self.evaluations += other.evaluations;
         self.nontrivial.extend(other.nontrivial);
+        self.nontrivial_counted += other.nontrivial_counted;
         for (k, v) in other.classes {
             *self.classes.entry(k).or_insert(0) += v;
         }
